@@ -766,10 +766,16 @@ def r14m(rep):
                     raise AnalysisError('build_file_response: parameter %s not found' % kw)
                 a = C._argn(ep, c, kw, bparams.index(kw))
                 ok = a is not None and C._all_srcs(ep, a, lambda e, want=want: norm(e) == want)
+                can = ''
+                if not ok and isinstance(a, ast.Call):
+                    try:
+                        can = ' (which can be %s)' % ' | '.join(sorted(C._terminal_values(ep, a)))
+                    except AnalysisError:
+                        can = ''
                 rep.check('R14.m', fkey(ep, 'passes %s' % kw), ok, '%s=%s' % (kw, want) if ok else
-                          '%s.get_file_response passes %s=%s to build_file_response, not %s%s'
-                          % (cname, kw, short(a) if a is not None else '<nothing>', want,
-                             ': conditional requests are never answered 304' if kw in ('cache_timeout', 'cached_modify_time') else
+                          '%s.get_file_response passes %s=%s%s to build_file_response, not %s%s'
+                          % (cname, kw, short(a) if a is not None else '<nothing>', can, want,
+                             ': conditional requests are not (always) answered 304' if kw in ('cache_timeout', 'cached_modify_time') else
                              ': the configured type does not reach the response'), st, c)
         if cname == 'StaticApplication' and 'mimetype' in bparams:
             # the application serves many files: the type is decided per file, not fixed by the endpoint
@@ -802,6 +808,42 @@ def r14m(rep):
         rep.check('R14.m', fkey(init, 'client caching on by default'), ok, 'cache_timeout defaults to %r' % (v,) if ok else
                   'cache_timeout defaults to %r: with the default configuration build_file_response never takes the 304 branch, a '
                   'conditional request carrying the Last-Modified value the server sent is answered 200' % (v,), st, init.node)
+    # sibling agreement: the two endpoints are two implementations of "serve this file" -- what they hand to
+    # build_file_response as the client's validator (and as the caching switch) is the same function of the request /
+    # the configuration, through whatever locals and helpers each of them computes it
+    handed = {}
+    for cname, wiring, stored in plan:
+        ep = st.func('%s.get_file_response' % cname)
+        for kw in ('cached_modify_time', 'cache_timeout'):
+            vals = set()
+            for c in C._bfr_calls(ep):
+                a = C._argn(ep, c, kw, bparams.index(kw))
+                vals |= C._terminal_values(ep, a) if a is not None else {'<nothing>'}
+            handed[cname, kw] = vals
+    for kw in ('cached_modify_time', 'cache_timeout'):
+        a, b = handed['StaticApplication', kw], handed['StaticFileRoute', kw]
+        rep.check('R14.m', fkey(bfr, 'endpoints agree on %s' % kw), a == b,
+                  'both endpoints pass %s=%s' % (kw, ' | '.join(sorted(a))) if a == b else
+                  'the two endpoints disagree on %s: StaticApplication passes %s, StaticFileRoute passes %s -- the same file is '
+                  'answered 304 by one and 200 by the other' % (kw, ' | '.join(sorted(a)), ' | '.join(sorted(b))), st, bfr.node)
+    # validator round trip: the 200 branch sends the file's own time as Last-Modified (R14.f, R14.k: never the clock), so
+    # the 304 branch must be offered the client's If-Modified-Since as it came -- which value reaches it must not depend
+    # on the server's clock (a file dated ahead of the clock would be sent in full on every conditional request)
+    for cname, wiring, stored in plan:
+        ep = st.func('%s.get_file_response' % cname)
+        bad = None
+        for c in C._bfr_calls(ep):
+            a = C._argn(ep, c, 'cached_modify_time', bparams.index('cached_modify_time'))
+            for owner, t in C._selection_tests(ep, a):
+                clk = C._reads_clock(owner, t)
+                if clk is not None and bad is None:
+                    bad = (owner, t, clk)
+        rep.check('R14.m', fkey(ep, 'validator not filtered by the clock'), bad is None,
+                  'which If-Modified-Since value reaches build_file_response does not depend on the clock' if bad is None else
+                  '%s: whether the client\'s If-Modified-Since reaches build_file_response depends on the server\'s clock (%s in %s): '
+                  'Last-Modified is the file\'s own time, so the validator the server sent for a file dated ahead of its clock is '
+                  'rejected when echoed (200 with the full body instead of 304)'
+                  % (ep.qualname, short(bad[1], 60), bad[0].qualname), st, bad[1] if bad is not None and bad[0].mod is st else ep.node)
     # the two defaults of the application are the ones of build_file_response (not swapped)
     init = st.func('StaticApplication.__init__')
     for attr in ('default_text_mime', 'default_binary_mime'):
@@ -815,7 +857,7 @@ def r14m(rep):
             raise AnalysisError('default of %s is not a constant' % attr)
         rep.check('R14.m', fkey(init, 'default of %s' % attr), va == vb, '%s defaults to %r in both' % (attr, va) if va == vb else
                   'StaticApplication defaults %s to %r, build_file_response to %r' % (attr, va, vb), st, init.node)
-    rep.floor('R14.m', 14)
+    rep.floor('R14.m', 18)
 
 
 # ---------------------------------------------------------------------------------------------- R14.n
